@@ -1540,6 +1540,11 @@ class Engine(object):
                 s2 = st.copy()
                 return [remember(VExc(Exception, {}, tag='orig_ex'), st), remember(VExc(SyntaxError, {}, tag='orig_ex'), s2)]
             if name in ('string', 'msg'):
+                # SyntaxError family (slot on the class) and the library's DoctestParseError (set in __init__) have it;
+                # any other exception class does not: reading it is an AttributeError
+                has = hasattr(v.cls, name) or v.cls.__name__ in ('DoctestParseError',)
+                if not has:
+                    return self._safe_result(FALSE, NONE, AttributeError, st, node)
                 return [remember(VStr(self.ctx.fresh('exc_' + name, STR)), st)]
             if name == 'text':
                 return [remember(VOptSym(self.ctx.fresh('exc_text_isnone', BOOL), VStr(self.ctx.fresh('exc_text', STR))), st)]
